@@ -15,13 +15,6 @@ set_option linter.unusedVariables false
 namespace LemoProofs.CowHeapL
 open LemoModel.CowTrie LemoModel.CowSpec LemoProofs.CowSpecL
 
-/-- fixed-length, injective key encoding (`Address.Hex()`) -/
-structure Enc (L : Nat) where
-  enc : Nat → Key
-  inj : ∀ a b, enc a = enc b → a = b
-  len : ∀ k, (enc k).length = L
-  pos : 0 < L
-
 structure CSt where
   lh : LHeap
   sroot : Nat
@@ -43,7 +36,7 @@ def hOf (a : ASt) : Option Nat → Nat
 
 structure Rel {L : Nat} (E : Enc L) (c : CSt) (a : ASt) (full : Nat → Key) (vis : Nat → Option Nat → Prop) : Prop where
   inv : CInv a
-  ok : LOk L c.lh full
+  ok : LOk E c.lh full
   live : ∀ l, (c.roots l).isSome ↔ (findB a.blocks l).isSome
   sroot : c.sroot < c.lh.length ∧ full c.sroot = [] ∧ vis c.sroot none
   root : ∀ l r, c.roots l = some r → r < c.lh.length ∧ full r = [] ∧ vis r (some l)
@@ -385,7 +378,7 @@ theorem rel_put {L : Nat} {E : Enc L} {c : CSt} {a a' : ASt} {full : Nat → Key
   obtain ⟨cn, hcn⟩ : ∃ cn, c.lh[r]? = some cn := ⟨c.lh[r], by rw [List.getElem?_eq_getElem r1]⟩
   have hkne : E.enc k ≠ [] := by
     intro h0; have h1 := E.len k; rw [h0] at h1; have := E.pos; simp only [List.length_nil] at h1; omega
-  obtain ⟨lh', res, full', hput, hpp⟩ := putL_spec (L := L) (P := fun id => vis id (some l)) ((E.enc k).length + 1) c.lh full r (E.enc k)
+  obtain ⟨lh', res, full', hput, hpp⟩ := putL_spec (E := E) (P := fun id => vis id (some l)) ((E.enc k).length + 1) c.lh full r (E.enc k)
     (some ⟨k, v⟩) b.height hr.ok (fun id n x hv hn hx => hr.closed id n x _ hv hn hx) r3 ⟨cn, hcn⟩
     (by rw [r2, E.len]; simp) hkne (Nat.lt_succ_self _)
   -- the writer owns what it mutates
@@ -618,7 +611,7 @@ theorem rel_get {L : Nat} {E : Enc L} {c : CSt} {a : ASt} {full : Nat → Key} {
       obtain ⟨cn, hcn⟩ : ∃ cn, c.lh[c.rootOf l]? = some cn := ⟨c.lh[c.rootOf l], by rw [List.getElem?_eq_getElem rr1]⟩
       have hkne : E.enc k ≠ [] := by
         intro h0; have h1 := E.len k; rw [h0] at h1; have := E.pos; simp only [List.length_nil] at h1; omega
-      obtain ⟨lh', full', hins, hpp⟩ := insertL_spec (L := L) ((E.enc k).length + 1) c.lh full (c.rootOf l) (E.enc k)
+      obtain ⟨lh', full', hins, hpp⟩ := insertL_spec (E := E) ((E.enc k).length + 1) c.lh full (c.rootOf l) (E.enc k)
         (some ⟨k, v⟩) hr.ok ⟨cn, hcn⟩ (by rw [rr2, E.len]; simp) hkne (Nat.lt_succ_self _) ho
       have hK : full (c.rootOf l) ++ E.enc k = E.enc k := by rw [rr2]; rfl
       obtain ⟨sp, hstr⟩ := hpp.str
